@@ -60,7 +60,8 @@ static struct node* nderef(marked_ptr p) {
 #define GDEREF(n) gderef(n)
 #define NDEREF(p) nderef(p)
 #define MP_get(p) (p)
-#define G_acquire(n, cell, mo) ((n) = A_LOAD(cell, mo), g_protected = (n), g_acq_clock = xv_clock, g_acquires++, (void)0)
+_Bool sync_weak_acquire;     /* sticky: a guard acquisition of _head/_tail or a load of a node's _next used an order weaker than acquire (sync precondition nq.sync.acquire) */
+#define G_acquire(n, cell, mo) ((n) = A_LOAD(cell, mo), g_protected = (n), g_acq_clock = xv_clock, g_acquires++, sync_weak_acquire = sync_weak_acquire || !XV_IS_ACQUIRE(mo), (void)0)
 static void g_reclaim(guard_ptr* n) {
   XV_OBL("nq.pop.retire_once", *n != 0 && *n == g_protected && node_at(*n)->xv_live && node_at(*n)->xv_retired == 0);
   XV_OBL("nq.pop.retire_once", g_self->_head != *n);      /* _head has been swung away (a lagging _tail may still name the node: the producer that linked its successor still protects it) */
@@ -99,9 +100,9 @@ static void delete_node(marked_ptr h) {
 #define XV_CALL_EMPTY() nq_try_pop_empty()
 
 /* ---- monitors */
-unsigned mon_cas_count; uint64_t mon_next_val, mon_next_clock; _Bool mon_commit_on;
+unsigned mon_cas_count; uint64_t mon_next_val, mon_next_clock; _Bool mon_commit_on; int mon_next_order;
 static void mon_load(void* addr, uint64_t v, int o) {
-  if (addr == (void*)&node0._next || addr == (void*)&node1._next || addr == (void*)&node2._next) { mon_next_val = v; mon_next_clock = xv_clock; }
+  if (addr == (void*)&node0._next || addr == (void*)&node1._next || addr == (void*)&node2._next) { mon_next_val = v; mon_next_clock = xv_clock; mon_next_order = o; }
 }
 static void mon_cas(void* addr, uint64_t e, uint64_t d, _Bool ok, int o) {
   mon_cas_count++;
@@ -111,6 +112,8 @@ static void mon_cas(void* addr, uint64_t e, uint64_t d, _Bool ok, int o) {
     /* head/tail are swung only from the node the guard protects (the value read when the guard was acquired) to the successor read from that node afterwards */
     XV_OBL("nq.commit", e == g_protected && g_protected != 0 && g_acq_clock < xv_clock && XV_IS_RELEASE(o));
     XV_OBL("nq.commit", d != 0 && (d == mon_next_val ? mon_next_clock > g_acq_clock : d == g_new_node));
+    /* the successor that is installed was obtained by an acquire load (the relaxed loads of _next are null tests only) */
+    if (d == mon_next_val && d != g_new_node) XV_OBL("nq.sync.acquire", XV_IS_ACQUIRE(mon_next_order) && !sync_weak_acquire);
   } else {
     /* link CAS: on the protected node's _next, expected null, desired = the node just allocated */
     XV_OBL("nq.commit", g_protected != 0 && addr == (void*)&node_at(g_protected)->_next && e == 0 && d == g_new_node && d != 0 && XV_IS_RELEASE(o));
@@ -396,9 +399,10 @@ void h_pop_int(void) {
 #ifdef XV_INT
   struct nq q; havoc_queue(&q); in_op = 1;
   T result; result.v = nondet_u32(); result.alive = 1; result.cell = 0; result.moved = nondet_bool();
-  mon_commit_on = 1; env_on = 1;
+  mon_commit_on = 1; env_on = 1; sync_weak_acquire = 0;
   _Bool r = nq_do_pop_int(&q, &result, 0);
   env_on = 0;
+  XV_OBL("nq.sync.acquire", !sync_weak_acquire);
   /* whatever the others did: a value is delivered iff exactly one cell was moved out and destroyed in this (last) iteration */
   XV_OBL("nq.own.exactly_once", r ? (total(g_destroyed) == 1 && total(g_movedout) == 1 && !result.moved) : (total(g_destroyed) == 0 && total(g_movedout) == 0));
   XV_OBL("nq.pop.retire_once", node0.xv_retired <= 1 && node1.xv_retired == 0);
@@ -409,9 +413,10 @@ void h_push_int(void) {
 #ifdef XV_INT
   struct nq q; havoc_queue(&q); in_op = 0;
   T value; value.v = g_int_v = nondet_u32(); value.alive = 1; value.moved = 0; value.cell = 0;
-  mon_commit_on = 1; env_on = 1; g_reserve1 = 1;
+  mon_commit_on = 1; env_on = 1; g_reserve1 = 1; sync_weak_acquire = 0;
   nq_push_int(&q, value);
   env_on = 0;
+  XV_OBL("nq.sync.acquire", !sync_weak_acquire);
   XV_OBL("nq.own.exactly_once", total(g_constructed) == total(g_destroyed) + 1);     /* the value sits in exactly one cell */
   XV_OBL("nq.node.delete_once", node0.xv_deleted == 0 && node1.xv_deleted == 0);
   XV_CANARY("push_int.returned"); if (node2.xv_live) XV_CANARY("push_int.linked");
